@@ -25,6 +25,48 @@ CHECKS = {
         "Trusted: CPython, NumPy, the reference estimators in mc/ref.py; filter outputs are taken from separately constructed real filters (decided by C04/C05).",
         "DESIGN.md 2/C01",
     ),
+    "C02": (
+        "exhaustive product enumeration of affine ensembles / designs / masks / failure patterns through EnsembleEvaluator.calculate with an exact-slope reference",
+        "Bounded exhaustive exploration of the implementation: the full product of the listed alphabets for V<=2,R<=2 (quick) / V<=3,R<=3 (thorough), combined and split paths, compared with the exact gradient of the affine ensemble; fixed entries compared with ==0.0.",
+        "Trusted: CPython, NumPy (incl. its SVD for the conditioning precondition), the slope-combination reference. Cases missing the conditioning precondition are generated and counted trivial.",
+        "DESIGN.md 2/C02",
+    ),
+    "C03": (
+        "exhaustive fault enumeration: every subset of failing (realization, unperturbed|perturbation) cells x thresholds x filters x estimators, differential against the reduced ensemble",
+        "Bounded exhaustive fault enumeration on the implementation: every subset of the R+R*P cells for shapes up to (3,2) (quick) / (3,3) (thorough), every NaN column, all thresholds; flags, None-ness, TOO_FEW_REALIZATIONS of the optimizer step, survivor estimates, reduced-ensemble differential and exact gradients.",
+        "Trusted: CPython, NumPy, reference estimators; the reduced-ensemble comparison uses the real code as its own oracle.",
+        "DESIGN.md 2/C03",
+    ),
+    "C10": (
+        "exhaustive product enumeration of per-variable bound kind x boundary type x perturbation type x magnitude x position x injected sample values, all pairs of settings for two variables",
+        "Bounded exhaustive exploration of the implementation on the gradient path with an injected deterministic sampler: all 120x120 per-variable setting pairs x 11 sample values, with and without a VariableScaler, compared exactly (==) with the reference x+m*s / clip / single reflection.",
+        "Trusted: CPython, NumPy, the 15-line reference; multi-width mirror overshoots only judged for membership in the bounds.",
+        "DESIGN.md 2/C10",
+    ),
+    "C13": (
+        "exhaustive product enumeration of bound kinds x value positions for variables, linear and non-linear constraints through a real evaluator step with a tracker",
+        "Bounded exhaustive exploration of the implementation: all 144 two-variable bound-kind/position settings x 15 linear x 15 non-linear settings x transforms x tolerances run through Plan/evaluator step/tracker and compared with the IEEE formulas.",
+        "Trusted: CPython, NumPy, the formulas value-lower, value-upper, max(lower-value,value-upper,0).",
+        "DESIGN.md 2/C13",
+    ),
+    "C17": (
+        "exhaustive product enumeration of methods x shapes x masks x sampler assignments x shared x seeds x consecutive calls on the real sampler plug-in, reference QMC engines",
+        "Bounded exhaustive exploration of the implementation: every method, R<=3, P in {1,2,4,8}, V<=3, every mask and two-sampler assignment; contract checks plus point-set equality with an identically seeded scipy engine and LHS stratification.",
+        "Trusted: scipy.stats.qmc engines (the reference), NumPy generators.",
+        "DESIGN.md 2/C17",
+    ),
+    "C18": (
+        "exhaustive enumeration of configuration dictionaries (full sub-products) + explicit-state closure over re-validation operations + walk over all reachable fields/arrays",
+        "Bounded exhaustive exploration of the implementation: full cross products of configuration sub-alphabets, an invalid-configuration menu, a mutation attempt on every field and array reachable from the validated object, and the closure of {validate(object), validate(dump), validate(JSON)} sequences up to depth 3, which must be a single canonical state.",
+        "Trusted: pydantic, NumPy; option dicts are not required to be frozen; dumps are re-validated without a context.",
+        "DESIGN.md 2/C18",
+    ),
+    "C19": (
+        "explicit-state BFS to closure over real PluginManager objects with an ordered-list reference model, all queries evaluated in every state; no-merge bounded-depth run",
+        "Explicit-state model checking of the implementation: BFS over add_plugin transitions on one and two real managers, merged on the fully observable plugins() order, to closure; every lookup query evaluated in every state against the model; plus all add/lookup sequences up to depth 3/4 without merging.",
+        "Trusted: the 30-line list model; state merging is sound because plugins() exposes the whole registration state (backed by the no-merge run).",
+        "DESIGN.md 2/C19",
+    ),
 }
 
 NOT_YET = "check not built yet in this session (planned in DESIGN.md section 2); not claimed until its check exists"
